@@ -126,12 +126,58 @@ def judge(y, ref, exact, check_dtype, out=None):
             continue
         except Exception as e:
             return ("entry-raise", f"{ename}:{E.exc_sig(e)}", f"using the result of {ename} raised {type(e).__name__}: {str(e)[:200]}")
+    return _after_update(y, ref, out)
+
+
+def _after_update(y, ref, out):
+    """History: the collection's keys / delayed blocks / graph were handed out,
+    THEN it is updated in place; every entry point must follow the update."""
+    ref = np.asarray(ref)
+    if ref.ndim < 1 or ref.shape[0] < 2 or y.dtype.kind != "f" or any(isinstance(s, float) and s != s for dim in y.chunks for s in dim):
+        return None
+    for uname, upd in (("setitem", lambda z: z.__setitem__(slice(1, None), -1.0)), ("iadd", lambda z: z.__iadd__(3.0))):
+        z = G.fresh(y)
+        try:
+            z.__dask_keys__(), z.to_delayed(), z.__dask_graph__()
+            z2 = upd(z)
+            z = z if z2 is None else z2
+        except Exception:  # noqa: BLE001  (an update that is refused is judged by C11)
+            continue
+        r2 = np.array(ref, copy=True)
+        if uname == "setitem":
+            r2[1:] = -1.0
+        else:
+            r2 += 3.0
+        for ename, fn in (
+            ("x.compute", lambda: z.compute(scheduler="sync")),
+            ("to_delayed", lambda: _to_delayed_value(z)),
+            ("graph+keys", lambda: G.assemble(G.get_blocks(dict(z.__dask_graph__()), z.__dask_keys__())) if z.ndim else None),
+            ("x.persist", lambda: z.persist(scheduler="sync").compute(scheduler="sync")),
+        ):
+            if out is not None:
+                out.count("entry_point_runs_after_update")
+            try:
+                val = fn()
+            except NotImplementedError:
+                continue
+            except Exception as e:  # noqa: BLE001
+                return ("entry-raise-after-update", f"{uname}:{ename}:{type(e).__name__}", f"after handing out keys/graph and then updating in place ({uname}), {ename} raised {type(e).__name__}: {str(e)[:200]}")
+            if val is None:
+                continue
+            bad = E.compare(val, r2, exact=False, dtype=False)
+            if bad:
+                return ("entry-after-update-" + bad[0], f"{uname}:{ename}", f"after handing out keys/graph and then updating in place ({uname}), {ename}: {bad[1]}")
     return None
 
 
 def _quick(seed):
     S = X.std_sources("quick")[:8]
-    return E.plan_shards(S, OPS.REWRITE, 1), {"depth": 1, "ops": len(OPS.REWRITE), "sources": len(S), "entry_points": 10, "follow_on_ops": len(FOLLOW)}
+    shards = E.plan_shards(S, OPS.REWRITE, 1)
+    # layout-changing pairs (a rewrite that moves block boundaries but keeps the
+    # block count only shows at depth 2 on these small axes)
+    d2 = OPS.subset(names=["rc2", "rc3", "diff", "diff2", "swv2_sum", "swv2_mean", "swv3_max", "sl_rev", "sl_1_4", "cumsum0"])
+    shards += E.plan_shards(S[:5], d2, 2, binary=False)
+    return shards, {"depth": 1, "ops": len(OPS.REWRITE), "sources": len(S), "depth2_layout_pairs": {"ops": len(d2), "sources": 5}, "entry_points": 10, "follow_on_ops": len(FOLLOW)}
 
 
 def _thorough(seed):
@@ -146,7 +192,7 @@ _m = X.make(
     "C05", judge,
     quick=_quick, thorough=_thorough,
     rule="for every program (root of every expression class reachable at the depth bound): x.compute(), dask.compute(x), dask.compute(x, sibling sharing x's subtree), x.persist(), dask.persist(x), dask.persist(x, sibling), dask.optimize(x), x.optimize(), x.to_delayed() assembled block-wise and np.asarray(x) all equal NumPy; persisted / dask-optimized collections keep name, keys, chunks, dtype; and each of 12 follow-on ops applied to every returned collection equals NumPy (history of length 2). Non-trivial = multi-block program",
-    assumptions=["synchronous scheduler", "a follow-on op that also fails on x itself is not attributed to the entry point"],
+    assumptions=["after the entry points, the history 'keys/to_delayed/graph handed out, then x[1:] = -1 / x += 3' is replayed on a fresh collection and compute / to_delayed / graph+keys / persist must all see the update", "synchronous scheduler", "a follow-on op that also fails on x itself is not attributed to the entry point"],
     floors={"entry_point_runs": 5000, "follow_on_runs": 5000},
 )
 globals().update(_m)
